@@ -1098,9 +1098,9 @@ def _corr(ctx, oracle_only=False, scale=1):
             res.traces += 1
             if viol:
                 cut = dict(c, ops=c['ops'][:recs[-1]['op'] + 1])
-                small = shrink_rhist(SF, cut, viol[0][0])
+                have = {v['key'] for v in res.violations}
                 for key, what, obs, req in viol:
-                    sc = small if key == viol[0][0] else cut
+                    sc = shrink_rhist(SF, cut, key) if key not in have else cut      # only the first per key is reported
                     res.violate(key, what + ' | history: %s then %s' % (sc['ctor'], sc['ops']), {'chk': 'rhist', 'args': sc}, obs, req)
             if use_model and recs:
                 lines.append(enc_rhist(c, recs)); after.append(('rhist', c, recs))
@@ -1168,7 +1168,7 @@ def _corr(ctx, oracle_only=False, scale=1):
                             ars = np.full(len(r['flat']), float(r['spec'][1]))
                         else:
                             ars = np.asarray(realize_vec(r['spec'])(np.array(r['flat'])), dtype=float).reshape(-1)
-                        if np.any(np.abs(ars - 1.0) <= 1e-12) and not np.all(ars == 1.0):
+                        if np.any((np.abs(ars - 1.0) <= 1e-12) & (ars != 1.0)):
                             res.near_tie_skipped += 1; continue          # the clamp at ar = 1 decides on the last bit
                         if not vlib.all_close(r['out'].reshape(-1), mcorrect, 1e-9):
                             res.disagree('radius interface: evaluation #%d (%s, argument %s) of the history' % (r['op'], r['fn'], r['cls']),
